@@ -1,4 +1,5 @@
 import AFProofs.Lemmas.Migrate
+import AFProofs.Lemmas.MigrateRows
 import AFModel.Generated.C19
 
 /-!
@@ -277,6 +278,251 @@ example : (runHistory Cfg.fixed table orm none [false, true, false]).map (·.2) 
 
 /-- `never_stamped_refuted` has instances: the oldest schema with an empty `revision` table -/
 example : (session Cfg.pinned pinnedTable orm (some { schema := base, rev := .empty }) true).1.rev = .empty := by
+  decide
+
+/-! ## Part 4 — row contents (`AFModel/MigrateRows.lean`: `sessionR` / `runHistoryR` / `interruptedR`)
+
+Tables carry their rows (finite maps column ↦ value, `none` = `NULL`). Generic in the step list, the schema, the
+rows, the revision-table state and the number of opens. -/
+
+/-- **the row-level model refines the name-level one**: forgetting the rows of any history of opens gives
+exactly `runHistory` — so every theorem of parts 1–3 holds for the model with rows (any `Cfg`). -/
+theorem rows_model_refines (cfg : Cfg) (tbl : Table) (orm : Schema) (file : Option RStore) (h : List Bool) :
+    (runHistoryR cfg tbl orm file h).map (fun x => (x.1.store, x.2))
+      = runHistory cfg tbl orm (file.map RStore.store) h :=
+  (runHistoryR_proj cfg tbl orm file h).symm
+
+/-- the same for an interrupted open -/
+theorem interrupted_rows_model_refines (tbl : Table) (s : RStore) (j : Nat) :
+    ((interruptedR tbl s j).1.store, (interruptedR tbl s j).2) = interrupted tbl s.store j :=
+  (interruptedR_proj tbl s j).symm
+
+/-- **closed form of the rows**: the statement loop leaves, in every table, the old rows — same number, same
+order — each rewritten by the statements that succeeded (`ADD`: `NULL` appended, `RENAME`: key renamed,
+`DROP`: entry removed); failed statements and `CREATE TABLE` touch no row. -/
+theorem rows_closed_form (d : Data) (l : List Stmt) (t : String) :
+    rowsOf (runStmtsR d l).1 t = (rowsOf d t).map (logOnRow t (runStmtsR d l).2) :=
+  rowsOf_runStmtsR d l t
+
+/-- a database stamped with the current revision is not touched — no row either -/
+theorem open_current_noop_rows (tbl : Table) (orm : Schema) (hw : tbl.WF) (hne : tbl.steps ≠ []) (s : RStore)
+    (hs : s.rev = .row (some (latestId tbl))) (c : Bool) :
+    sessionR Cfg.fixed tbl orm (some s) c = (s, []) := by
+  rw [sessionR_fixed tbl orm hne s c, hs]
+  simp [ridOf, getSteps_latest tbl hw hne]
+
+/-- **the revision table holds exactly one row, with the current revision**, after every open of any
+database (`Rev.row` is "exactly one row"; `noTable`, `empty` are the other shapes) -/
+theorem revision_single_row (tbl : Table) (orm : Schema) (hw : tbl.WF) (hne : tbl.steps ≠ [])
+    (file : Option RStore) (c : Bool) :
+    (sessionR Cfg.fixed tbl orm file c).1.rev = .row (some (latestId tbl)) := by
+  have h := sessionR_proj Cfg.fixed tbl orm file c
+  have h2 := every_open_ends_current tbl orm hw hne (file.map RStore.store) c
+  rw [h] at h2
+  exact h2
+
+/-- **fixed point at row level**: in any history of opens of any database (or of no file), every use after
+the first attempts nothing and leaves the file — schema, stamp and every row — exactly as the first left it. -/
+theorem rows_fixed_point (tbl : Table) (orm : Schema) (hw : tbl.WF) (hne : tbl.steps ≠ [])
+    (file : Option RStore) (c : Bool) (h : List Bool) :
+    ∀ x ∈ (runHistoryR Cfg.fixed tbl orm file (c :: h)).tail, x = ((sessionR Cfg.fixed tbl orm file c).1, []) := by
+  simp only [runHistoryR, List.tail_cons]
+  have key : ∀ (s : RStore), s.rev = .row (some (latestId tbl)) →
+      ∀ x ∈ runHistoryR Cfg.fixed tbl orm (some s) h, x = (s, []) := by
+    induction h with
+    | nil => intro s _ x hx; simp [runHistoryR] at hx
+    | cons c' rest ih =>
+      intro s hs x hx
+      simp only [runHistoryR, open_current_noop_rows tbl orm hw hne s hs c', List.mem_cons] at hx
+      rcases hx with hx | hx
+      · exact hx
+      · exact ih s hs x hx
+  exact key _ (revision_single_row tbl orm hw hne file c)
+
+/-- … hence after any history of at least one open the file is what the first open left -/
+theorem rows_after_any_history (tbl : Table) (orm : Schema) (hw : tbl.WF) (hne : tbl.steps ≠ [])
+    (file : Option RStore) (c : Bool) (h : List Bool) :
+    ∀ x ∈ runHistoryR Cfg.fixed tbl orm file (c :: h), x.1 = (sessionR Cfg.fixed tbl orm file c).1 := by
+  intro x hx
+  have hx' : x = sessionR Cfg.fixed tbl orm file c ∨ x ∈ (runHistoryR Cfg.fixed tbl orm file (c :: h)).tail := by
+    simpa [runHistoryR] using hx
+  rcases hx' with rfl | hx'
+  · rfl
+  · rw [rows_fixed_point tbl orm hw hne file c h x hx']
+
+/-- n further opens change no row -/
+theorem reopen_rows_fixed_point (tbl : Table) (orm : Schema) (hw : tbl.WF) (hne : tbl.steps ≠ [])
+    (file : Option RStore) (c : Bool) (n : Nat) :
+    reopenR Cfg.fixed tbl orm (sessionR Cfg.fixed tbl orm file c).1 n = (sessionR Cfg.fixed tbl orm file c).1 := by
+  induction n with
+  | zero => rfl
+  | succ n ih =>
+    simp only [reopenR]
+    rw [open_current_noop_rows tbl orm hw hne _ (revision_single_row tbl orm hw hne file c) false]
+    exact ih
+
+/-- one open of an existing database: its tables hold the old rows, rewritten by one function per table,
+which keeps the value of every column that no step renames away or drops -/
+theorem session_rows_preserved (tbl : Table) (orm : Schema) (hne : tbl.steps ≠ []) (s : RStore)
+    (hd : wfData s.data = true) (t : String) (c0 : Bool) :
+    ∃ f : Row → Row, rowsOf (sessionR Cfg.fixed tbl orm (some s) c0).1.data t = (rowsOf s.data t).map f ∧
+      ∀ c, (∀ st ∈ stmtsOf tbl.steps, st.removes t c = false) →
+        ∀ r ∈ rowsOf s.data t, ∀ v, cellOf r c = some v → cellOf (f r) c = some v := by
+  rw [sessionR_fixed tbl orm hne s c0]
+  by_cases he : (getSteps tbl (ridOf s.rev)).isEmpty
+  · exact ⟨id, by simp [he], fun _ _ _ _ _ hv => hv⟩
+  · refine ⟨logOnRow t (runStmtsR s.data (stmtsOf (getSteps tbl (ridOf s.rev)))).2, ?_, ?_⟩
+    · simp only [he, Bool.false_eq_true, if_false]
+      exact rowsOf_runStmtsR _ _ t
+    · intro c hrem r hr v hv
+      exact cell_preserved s.data _ t c hd
+        (fun st hst => hrem st (stmtsOf_subset tbl _ st hst)) r hr v hv
+
+/-- **existing fits are still readable — row level.** Any database whose rows fit its columns, any stamp, any
+history of one or more opens (caller commits or not): at every point of the history every table holds exactly
+its old rows, in order, and every old value of every column that no step renames away or drops is unchanged. -/
+theorem rows_preserved (tbl : Table) (orm : Schema) (hw : tbl.WF) (hne : tbl.steps ≠ []) (s : RStore)
+    (hd : wfData s.data = true) (t : String) (c0 : Bool) (h : List Bool) :
+    ∀ x ∈ runHistoryR Cfg.fixed tbl orm (some s) (c0 :: h),
+      ∃ f : Row → Row, rowsOf x.1.data t = (rowsOf s.data t).map f ∧
+        ∀ c, (∀ st ∈ stmtsOf tbl.steps, st.removes t c = false) →
+          ∀ r ∈ rowsOf s.data t, ∀ v, cellOf r c = some v → cellOf (f r) c = some v := by
+  intro x hx
+  rw [rows_after_any_history tbl orm hw hne (some s) c0 h x hx]
+  exact session_rows_preserved tbl orm hne s hd t c0
+
+/-- rows keep fitting their columns through any history of opens -/
+theorem rows_stay_wellformed (tbl : Table) (orm : Schema) (hw : tbl.WF) (hne : tbl.steps ≠ [])
+    (file : Option RStore) (hd : ∀ s, file = some s → wfData s.data = true) (c0 : Bool) (h : List Bool) :
+    ∀ x ∈ runHistoryR Cfg.fixed tbl orm file (c0 :: h), wfData x.1.data = true := by
+  intro x hx
+  rw [rows_after_any_history tbl orm hw hne file c0 h x hx]
+  cases file with
+  | none => rw [sessionR_fixed_fresh]; exact wf_emptyData orm
+  | some s =>
+    rw [sessionR_fixed tbl orm hne s c0]
+    split
+    · exact hd s rfl
+    · exact wf_runStmtsR _ _ (hd s rfl)
+
+/-- **new columns read `NULL` on old rows.** A column the database did not have before, and which is not the
+target of a rename, reads `NULL` in every row wherever it exists after any history of opens. -/
+theorem new_columns_null (tbl : Table) (orm : Schema) (hw : tbl.WF) (hne : tbl.steps ≠ []) (s : RStore)
+    (hd : wfData s.data = true) (t c : String) (hnew : hasCol (schemaOf s.data) t c = false)
+    (hren : (t, c) ∉ renameTargets tbl.steps) (c0 : Bool) (h : List Bool) :
+    ∀ x ∈ runHistoryR Cfg.fixed tbl orm (some s) (c0 :: h),
+      ∀ T, findT x.1.data t = some T → c ∈ T.cols → ∀ r ∈ T.rows, cellOf r c = some none := by
+  intro x hx
+  rw [rows_after_any_history tbl orm hw hne (some s) c0 h x hx, sessionR_fixed tbl orm hne s c0]
+  have h0 := nullAt_of_no_col s.data t c hnew
+  split
+  · exact h0
+  · apply nullAt_runStmtsR s.data _ t c hd _ h0
+    intro st hst a e
+    apply hren
+    have hm := stmtsOf_subset tbl _ st hst
+    simp only [renameTargets, List.mem_filterMap]
+    exact ⟨st, hm, by rw [e]⟩
+
+/-- a successful `RENAME COLUMN a TO b` moves the values: every row reads under `b` what it held under `a` -/
+theorem renamed_column_carries_values (d d' : Data) (t a b : String) (hd : wfData d = true)
+    (h : applyStmtR d (.renameColumn t a b) = some d') :
+    columnOf d' t b = columnOf d t a :=
+  rename_moves_cells d d' t a b hd h
+
+/-- a database created by `open_database` holds every mapped table, no row, and the stamp -/
+theorem fresh_db_no_rows (tbl : Table) (orm : Schema) (c : Bool) :
+    sessionR Cfg.fixed tbl orm none c = ({ data := emptyData orm, rev := .row (some (latestId tbl)) }, []) :=
+  sessionR_fixed_fresh tbl orm c
+
+/-- **interrupted open, row level.** When the process dies after `j` statements the file holds the old rows
+(rewritten by the statements that were durable — none when the open had to create the `revision` table, whose
+`INSERT` opened a transaction that is rolled back with everything after it), values of never-removed columns
+unchanged, rows still fitting their columns; so `rows_preserved` applies to the opens that follow. -/
+theorem interrupted_rows_preserved (tbl : Table) (s : RStore) (hd : wfData s.data = true) (t : String) (j : Nat) :
+    wfData (interruptedR tbl s j).1.data = true ∧
+    ∃ f : Row → Row, rowsOf (interruptedR tbl s j).1.data t = (rowsOf s.data t).map f ∧
+      ∀ c, (∀ st ∈ stmtsOf tbl.steps, st.removes t c = false) →
+        ∀ r ∈ rowsOf s.data t, ∀ v, cellOf r c = some v → cellOf (f r) c = some v := by
+  obtain ⟨d, rev⟩ := s
+  simp only at hd
+  cases rev with
+  | noTable =>
+    refine ⟨by simpa [interruptedR, readRevisionR, initRevisionTableR, RDb.work, RDb.ddl, RDb.dml, RDb.close] using hd,
+      id, by simp [interruptedR, readRevisionR, initRevisionTableR, RDb.work, RDb.ddl, RDb.dml, RDb.close],
+      fun _ _ _ _ _ hv => hv⟩
+  | empty =>
+    refine ⟨by simpa [interruptedR, readRevisionR, RDb.work, RDb.ddl, RDb.close] using wf_runStmtsR d _ hd,
+      logOnRow t (runStmtsR d ((stmtsOf (getSteps tbl none)).take j)).2,
+      by simpa [interruptedR, readRevisionR, RDb.work, RDb.ddl, RDb.close] using rowsOf_runStmtsR d _ t, ?_⟩
+    intro c hrem r hr v hv
+    exact cell_preserved d _ t c hd
+      (fun st hst => hrem st (stmtsOf_subset tbl _ st (List.mem_of_mem_take hst))) r hr v hv
+  | row rid =>
+    refine ⟨by simpa [interruptedR, readRevisionR, RDb.work, RDb.ddl, RDb.close] using wf_runStmtsR d _ hd,
+      logOnRow t (runStmtsR d ((stmtsOf (getSteps tbl rid)).take j)).2,
+      by simpa [interruptedR, readRevisionR, RDb.work, RDb.ddl, RDb.close] using rowsOf_runStmtsR d _ t, ?_⟩
+    intro c hrem r hr v hv
+    exact cell_preserved d _ t c hd
+      (fun st hst => hrem st (stmtsOf_subset tbl _ st (List.mem_of_mem_take hst))) r hr v hv
+
+/-- an interrupted open followed by any history of opens: still the old rows, old values unchanged -/
+theorem interrupted_then_opens_rows_preserved (tbl : Table) (orm : Schema) (hw : tbl.WF) (hne : tbl.steps ≠ [])
+    (s : RStore) (hd : wfData s.data = true) (t : String) (j : Nat) (c0 : Bool) (h : List Bool) :
+    ∀ x ∈ runHistoryR Cfg.fixed tbl orm (some (interruptedR tbl s j).1) (c0 :: h),
+      ∃ f : Row → Row, rowsOf x.1.data t = (rowsOf s.data t).map f ∧
+        ∀ c, (∀ st ∈ stmtsOf tbl.steps, st.removes t c = false) →
+          ∀ r ∈ rowsOf s.data t, ∀ v, cellOf r c = some v → cellOf (f r) c = some v := by
+  intro x hx
+  obtain ⟨hwf, f1, hf1, hp1⟩ := interrupted_rows_preserved tbl s hd t j
+  obtain ⟨f2, hf2, hp2⟩ := rows_preserved tbl orm hw hne _ hwf t c0 h x hx
+  refine ⟨f2 ∘ f1, by rw [hf2, hf1, List.map_map], ?_⟩
+  intro c hrem r hr v hv
+  exact hp2 c hrem (f1 r) (by rw [hf1]; exact List.mem_map_of_mem hr) v (hp1 c hrem r hr v hv)
+
+/-! ### the regenerated step list -/
+
+/-- the only column that is the target of a rename (every other new column reads `NULL` on old rows) -/
+theorem rename_targets : renameTargets steps = [("object", "latent_samples_for_id")] := by decide
+
+/-- **every value of every mapped column survives**: instance of `rows_preserved` for the repository's step
+list and mapping -/
+theorem mapped_values_survive (s : RStore) (hd : wfData s.data = true) (c0 : Bool) (h : List Bool) :
+    ∀ tc ∈ orm.flatMap (fun (t, cs) => cs.map fun c => (t, c)),
+      ∀ x ∈ runHistoryR Cfg.fixed table orm (some s) (c0 :: h),
+        ∃ f : Row → Row, rowsOf x.1.data tc.1 = (rowsOf s.data tc.1).map f ∧
+          ∀ r ∈ rowsOf s.data tc.1, ∀ v, cellOf r tc.2 = some v → cellOf (f r) tc.2 = some v := by
+  intro tc htc x hx
+  obtain ⟨f, hf, hp⟩ := rows_preserved table orm table_wf steps_nonempty s hd tc.1 c0 h x hx
+  exact ⟨f, hf, hp tc.2 (orm_columns_never_removed tc htc)⟩
+
+/-- non-vacuity and a concrete reading of the row theorems: shape `A7` (column `latent_variables_for_id`)
+stamped with revision 7, one row per table holding the column's name in every column. After `open; close;
+open; commit; close` the `object` row reads its old values under the old names, the old value of the renamed
+column under the new name, nothing under the stale name; `named_instance` got `instance_id = NULL`. -/
+example : ∃ v ∈ variants, v.1 = "A7" ∧
+    let s : RStore := { data := sampleData v.2.2, rev := .row (some (table.revIds[6]'(by decide))) }
+    wfData s.data = true ∧
+    ∀ x ∈ runHistoryR Cfg.fixed table orm (some s) [false, true],
+      columnOf x.1.data "object" "class_path" = [some (some "class_path")] ∧
+      columnOf x.1.data "object" "latent_samples_for_id" = [some (some "latent_variables_for_id")] ∧
+      columnOf x.1.data "object" "latent_variables_for_id" = [none] ∧
+      columnOf x.1.data "named_instance" "instance_id" = [some none] ∧
+      columnOf x.1.data "fit" "name" = [some (some "name")] := by
+  decide
+
+/-- `new_columns_null` has instances: the oldest shape lacks `fit.name`, which is no rename target -/
+example : hasCol (schemaOf (sampleData base)) "fit" "name" = false ∧ ("fit", "name") ∉ renameTargets steps ∧
+    columnOf (sessionR Cfg.fixed table orm (some { data := sampleData base, rev := .noTable }) false).1.data
+      "fit" "name" = [some none] := by
+  decide
+
+/-- an interrupted open of a database without `revision` table loses its statements (rolled back with the
+`INSERT` that opened the transaction); with a `revision` table they are durable one by one -/
+example :
+    columnOf (interruptedR table { data := sampleData base, rev := .noTable } 2).1.data "fit" "name" = [none] ∧
+    columnOf (interruptedR table { data := sampleData base, rev := .empty } 2).1.data "fit" "name" = [some none] ∧
+    columnOf (interruptedR table { data := sampleData base, rev := .empty } 2).1.data "fit" "id" = [some (some "id")] := by
   decide
 
 end AF.C19
